@@ -56,6 +56,9 @@ type GuardSpec struct {
 	Mutex  string `json:"mutex"` // pkg.Type.field of the mutex
 	Reads  bool   `json:"reads"` // true: reads must hold the mutex too (strict guard)
 	Source string `json:"source"`
+	// Optional: a table added by a recent repair that may still be renamed; when the source no
+	// longer has it the declaration is skipped with a note instead of stopping the translator.
+	Optional bool `json:"optional,omitempty"`
 }
 
 type AllowSpec struct {
@@ -1082,6 +1085,10 @@ func main() {
 				guards = append(guards, guardRow{i, mtxID[g.Mutex], g.Reads})
 				found = true
 			}
+		}
+		if !found && g.Optional {
+			fmt.Fprintf(os.Stderr, "extract-access: note: optional guard declaration for %s matches no location of the current source\n", g.Loc)
+			continue
 		}
 		if !found {
 			fatal("declared guard names location %s, which the source does not access any more; review allow.json", g.Loc)
